@@ -781,6 +781,8 @@ class Exec:
             if d != d or d in (float('inf'), float('-inf')): raise Unsupported('non-finite const in real mode')
             if n == 32:
                 import struct; d = struct.unpack('f', struct.pack('f', d))[0]
+            rc = getattr(s, 'real_consts', None)      # optional {(bits, literal value): symbolic real}, e.g. pi literals (engine/realtrig.py:map_pi_literals)
+            if rc and (n, d) in rc: return RV(n, rc[(n, d)])
             fr = Fraction(d); return RV(n, z3.RealVal(str(fr)))
         return FV(n, fp=z3.FPVal(d, FSORT[n]))
     def zero_or_fresh(s, ty, fresh):
